@@ -143,6 +143,18 @@ def replay(ctx, st, idx):
             wy = [model_arr(m) for m in res['ity']]
             if len(items) != len(wx) or any(not (same(a, obs(it.x)) and same(b, obs(it.y))) for a, b, it in zip(wx, wy, items)):
                 return ctx.violation(sig + 'iter', 'iteration differs from iterating x and y', case)
+        # xy is the pair (x, y); copy() is an equal coordinate that shares no array with the original
+        xy = p.xy
+        if not (isinstance(xy, tuple) and len(xy) == 2 and same(obs(p.x), obs(xy[0])) and same(obs(p.y), obs(xy[1]))):
+            return ctx.violation(sig + 'xy', 'xy is not the pair (x, y)', case)
+        q = p.copy()
+        if not (same(obs(p.x), obs(q.x)) and same(obs(p.y), obs(q.y)) and q.isscalar == p.isscalar):
+            return ctx.violation(sig + 'copy', 'copy() does not hold the same values', case)
+        if s1 != [] and 0 not in s1:
+            qx = np.asarray(q.x)
+            qx.flat[0] += 100
+            if not same(obs(p.x), obs(P(s1).x)):
+                return ctx.violation(sig + 'copy', 'editing the x array of a copy changed the original', case)
     elif op == 'addsub':
         try:
             a, b = P(s1) + Q(s2), P(s1) - Q(s2)
